@@ -59,7 +59,7 @@ def run(tier="quick", prop=None):
             msg = "; ".join("%s @%s" % (e["message"][:200], e["line"]) for e in errs[:5]) or r["stderr"][-800:]
             return all_undecided("Verus rejected the unit before verification (unsupported construct / renamed local in a proof hint?): " + msg)
         # rustc-level errors (E0xxx: e.g. a proof hint naming a local that no longer exists) are not verification results
-        hard = [e for e in errs if re.match(r"(cannot find|mismatched types|no method|no field|expected|unresolved|cannot borrow|use of moved)", e["message"])]
+        hard = [e for e in errs if not V.is_verification_failure(e)]
         if hard:
             return all_undecided("the unit does not compile on this tree (renamed local / changed types): " + "; ".join("%s @%s" % (e["message"][:160], e["line"]) for e in hard[:4]))
         ranges = [(m["unit_line"], m["unit_line"] + m["n_lines"], m["function"]) for m in meta["linemap"]]
